@@ -54,6 +54,7 @@ fn main() {
         }
         i += 1;
     }
+    util::start_watchdog(&path);
     let mut out = Out::new(&path, only);
     match driver.as_str() {
         "lattice" => drv_lattice::run(&mut out, seed, thorough),
